@@ -210,38 +210,221 @@ Proof. vm_compute. repeat split; reflexivity. Qed.
 
 (* ================================================================== *)
 (* PARSE HALF.  Models: Model/Lexer.v (scanner), Model/Token.v (tree.next/backup/peek, the token
-   errorf takes its position from), Model/Parser.v (command-level parser; [PErr at_ class st]
-   records the token whose position is reported), after the repairs bb87cc7 and 228b3d2.
+   errorf takes its position from), Model/ExprParser.v + Model/Parser.v (expression and command-level
+   parser; [PErr at_ class st] records the token whose position is reported), Spec/ErrText.v (the text
+   errorAt builds), after the repairs bb87cc7 and 228b3d2.
 
-   The full statement of DESIGN section 4 is
+   The statement of DESIGN section 4 is
 
-     parse_error_position : parse name s = PErr t .. ->
-         file = name /\ t = the offending item /\ line = line_at s (t_pos t) /\ t_pos t <= |s|
-         /\ 1 <= line <= lines s /\ the text shows the same numbers
+     parse_error_position : parse name s = Err e ->
+         e.file = name /\ 1 <= e.line <= lines s /\ e.line = line_at s e.pos
+         /\ e.pos = pos (offending item) /\ text_mentions e
 
-   What is proved here (the rest rests on the enumeration of the harness and on its tie of
-   Model/Parser.v with the real parser on the faulted files):
-   - C19_parse_error_position_partial: an error returned by the model of parse.SoyFile carries a
-     token positioned inside the input (or comes from a quoted attribute expression without
-     enclosing text, which the parameters of the model cannot exclude), and the line computed
-     from any position is between 1 and lines s.  Missing: that the token is the offending one at
-     EVERY error site of the parser (proved for `unexpected`, for the P5 site textOrTag, and end to
-     end for the two lexical fault classes below); that the scanner's item positions never exceed
-     |s| (so that the guard in errorAt never turns an error into a crash) -- wt-lex's invariant.
-     The file name and the message text are not modelled (the harness checks them on every case).
-   - the two lexical fault classes, for EVERY scanner configuration: C19_stray_brace,
-     C19_illegal_char (+ the exact line: C19_stray_brace_line, C19_illegal_char_line). *)
+   and is proved here in three theorems over the models:
+   - C19_parse_error_position (scanner model composed with parser model, every input, every error
+     site): the reported token is the item the parser received last or the one just before it -- an
+     item the scanner sent for s: inside s, line between 1 and lines s; when it is an error item it is
+     the scanner's LAST item and stands at the cursor where scanning stopped, which for an
+     unterminated soydoc / block comment / string / tag is the end of the input; or (quoted attribute
+     expression) the last / last-but-one item of that expression's own scanner, placed in the file at
+     base + offset (C19_quoted_error_position).
+   - C19_error_sites_enumerated: the errorf / unexpected / expect / error call sites of parse.go,
+     re-read from the source on every run, are exactly the reviewed ones (a new site breaks this).
+   - C19_error_text_shows_position: the error carries the given file name, and its text starts with
+     "template <file>:<line>:<col>: " for the very line and column it carries (file names without %).
+   - C19_scan_prefix_determinism / C19_valid_scan_transfers: prefix determinism of the scanner -- two
+     inputs with a common prefix pass through the same configurations as long as the cursor stays 24
+     bytes before the end of the common prefix (all fifteen state functions).
+   Still partial -- C19_fault_line_partial: the exact-line statements for an injected stray brace /
+   illegal character are derived from the scan of the VALID file only under that margin (at least 24
+   bytes of plain text / white space between the configuration the valid scan reaches and the fault). *)
 From Soy Require Import Model.Utf8 Model.Token Model.Lexer Model.RawText Model.ExprParser Model.Parser
-  Proofs.ErrTokProofs Proofs.ParseErrBound Proofs.LexErrPos Proofs.LexEofPos Proofs.ParseEndToEnd.
+  Proofs.ErrTokProofs Proofs.ParseErrBound Proofs.LexErrPos Proofs.LexEofPos Proofs.ParseEndToEnd
+  Spec.ErrText Proofs.LexTokens Proofs.LexFinalPos Proofs.ErrPosWindow Proofs.ErrPosWindowCmd Proofs.ErrPosFinal
+  Proofs.ErrPosReach Proofs.ErrPosSites Proofs.ErrPosText Proofs.LexPrefixStates Proofs.LexPrefixMain Proofs.ErrPosPrefix.
+Open Scope N_scope.
 
-Theorem C19_parse_error_position_partial :
+(* every error of the model of parse.SoyFile, on the items of the scanner model, for every input *)
+Theorem C19_parse_error_position :
+  forall ul ud, ul (-1)%Z = false -> ud (-1)%Z = false ->
+  forall fuel s ts lexq unq t c st,
+    lex_items ul ud fuel false s = Ok ts ->
+    let out := soy_file (N.of_nat (length s)) lexq unq ts in
+    po_result out = PErr t c st ->
+    (werr ts t st /\ item_facts ul ud s ts t)
+    \/ quoted_window (N.of_nat (length s)) lexq t c (po_scans out).
+Proof. exact parse_error_position. Qed.
+Print Assumptions C19_parse_error_position.
+
+(* the window alone, for ANY item list (not only a scanner's): the item received last, or the one before *)
+Theorem C19_parse_error_window :
+  forall inlen lexq unq ts t c st,
+    po_result (soy_file inlen lexq unq ts) = PErr t c st ->
+    (t = itm ts (p_recv st) \/ t = itm ts (p_recv st - 1)%nat)
+    \/ quoted_window inlen lexq t c (po_scans (soy_file inlen lexq unq ts)).
+Proof. exact soy_file_error_window. Qed.
+Print Assumptions C19_parse_error_window.
+
+(* the expression parser alone (parse.Expr and every parseExpr the command parser starts) *)
+Theorem C19_expr_error_window :
+  forall ts fuel prec p, W ts p ->
+    match parse_expr fuel prec p with
+    | PErr t _ p' => t = itm ts (p_recv p') \/ t = itm ts (p_recv p' - 1)%nat
+    | POk _ p' => W ts p'
+    | _ => True
+    end.
+Proof. intros ts fuel prec p H. pose proof (xp_parse_expr ts fuel prec p H) as X. destruct (parse_expr fuel prec p); exact X. Qed.
+Print Assumptions C19_expr_error_window.
+
+(* a fault inside a quoted attribute expression (lexExprAt, base > 0): the reported item is an item of
+   the expression's own scanner placed at base + its offset in the expression, inside the file (or,
+   without enclosing text, inside the expression: base = 0), and the line computed is inside the text *)
+Theorem C19_quoted_error_position :
+  forall inlen lexq t c scans, quoted_window inlen lexq t c scans ->
+    exists str base,
+      (t = zero_tok \/ exists it, In it (lexq str) /\ t = shift_tok base it /\ t_pos t = base + t_pos it) /\
+      (t_pos t <= inlen \/ (base = 0 /\ t_pos t <= N.of_nat (length str))) /\
+      forall src, 1 <= line_at src (t_pos t) <= lines src.
+Proof. exact quoted_error_position. Qed.
+Print Assumptions C19_quoted_error_position.
+
+(* the scanner, every input, every mode and base: the last item stands at the cursor where the scan
+   stopped, inside the input; an unterminated soydoc / comment / string / tag is reported at the end *)
+Theorem C19_scan_final_item :
+  forall ul ud, ul (-1)%Z = false -> ud (-1)%Z = false ->
+  forall base, (0 <= base)%Z -> forall fuel expr_mode s l,
+    lex_run_at ul ud base fuel expr_mode s = Ok l ->
+    exists it rest, l_out l = it :: rest /\ t_pos it = Z.to_N (base + l_pos l) /\
+      (0 <= l_pos l <= Z.of_nat (length s))%Z /\
+      (t_typ it = itemError -> eof_class (t_val it) = true -> l_pos l = Z.of_nat (length s)).
+Proof. exact scan_final_item. Qed.
+Print Assumptions C19_scan_final_item.
+
+(* the error sites of parse.go, enumerated from today's source by tablegen, are the reviewed ones *)
+Theorem C19_error_sites_enumerated :
+  uncovered_sites = [] /\ stale_sites = [] /\
+  forallb (fun s : site => let '(f, _, _, _, _) := s in existsb (fun p => bstr_eqb f (fst p)) cover_map) parser_error_sites = true.
+Proof. exact (conj no_uncovered_site (conj no_stale_site sites_have_model_procedures)). Qed.
+Print Assumptions C19_error_sites_enumerated.
+
+(* file name and message text *)
+Theorem C19_error_text_shows_position :
+  forall fmt2 : bstr -> bstr,
+    (forall lit rest, ~ In 37 lit -> fmt2 (lit ++ rest) = lit ++ fmt2 rest) ->
+  forall name line col body, ~ In 37 name ->
+    let e := error_at fmt2 name line col body in
+    pe_file e = name /\ pe_line e = line /\ pe_col e = col /\
+    pe_text e = Some (prefix_text (pe_file e) (pe_line e) (pe_col e) ++ fmt2 body) /\
+    (forall text, pe_text e = Some text -> mentions text (pe_file e) (pe_line e) (pe_col e)).
+Proof. exact error_text_shows_position. Qed.
+Print Assumptions C19_error_text_shows_position.
+
+(* prefix determinism of the scanner: one lemma per scanning loop and state function (Proofs/LexPrefix*.v) *)
+Theorem C19_scan_prefix_determinism :
+  forall ul ud pre r1 r2 base k st l st' l',
+    psteps ul ud base (pre ++ r1) k st l = Ok (st', l') ->
+    (forall j, (j <= k)%nat -> forall stj lj, psteps ul ud base (pre ++ r1) j st l = Ok (stj, lj) ->
+       good pre stj lj) ->
+    psteps ul ud base (pre ++ r2) k st l = Ok (st', l').
+Proof. exact steps_det. Qed.
+Print Assumptions C19_scan_prefix_determinism.
+
+(* ... for the scan of a file from its beginning; start <= pos and liveness are discharged by the scanner invariant *)
+Theorem C19_valid_scan_transfers :
+  forall ul ud, ul (-1)%Z = false -> ud (-1)%Z = false ->
+  forall pre r1 r2 k st l,
+    steps ul ud (pre ++ r1) 0 k LText lex_init = Ok (st, l) -> st <> LDone ->
+    (forall j stj lj, (j <= k)%nat -> steps ul ud (pre ++ r1) 0 j LText lex_init = Ok (stj, lj) ->
+       before_margin pre lj) ->
+    steps ul ud (pre ++ r2) 0 k LText lex_init = Ok (st, l).
+Proof. exact valid_scan_transfers. Qed.
+Print Assumptions C19_valid_scan_transfers.
+
+(* PARTIAL.  Full statement (DESIGN: stray_brace_line, illegal_char_line "for every valid prefix"):
+     for every VALID file v, every line L of it and every injection of the fault on L, the error of the
+     faulted file is reported on line L.
+   Proved (1), from the scan of the valid file: v = pre ++ r1 any file whose scan reaches, after k steps
+   that keep the cursor M = 24 bytes before |pre|, the text state
+   (the inside of a tag); f = pre ++ r2 any file with the same first |pre| bytes in which plain text and a
+   closing brace (white space and an illegal character) follow that cursor: the items of f are the items
+   the valid scan had sent followed by the error item just after the offending character, whose line is
+   1 + the line feeds before that character.  Proved (2), without the margin: the same from every
+   configuration the scan of f itself reaches.  Missing for the full statement: the margin (a fault
+   closer than 24 bytes to the last tag boundary before it) and the other fault
+   classes (covered by C19_parse_error_position as to WHICH item is reported, not as to its line). *)
+Theorem C19_fault_line_partial :
+  forall ul ud, ul (-1)%Z = false -> ud (-1)%Z = false ->
+  (forall pre r1 r2 k l txt rest fuel,
+     steps ul ud (pre ++ r1) 0 k LText lex_init = Ok (LText, l) ->
+     (forall j stj lj, (j <= k)%nat -> steps ul ud (pre ++ r1) 0 j LText lex_init = Ok (stj, lj) ->
+        before_margin pre lj) ->
+     drop (Z.to_nat (l_pos l)) (pre ++ r2) = txt ++ 125 :: rest -> Forall plain txt ->
+     let f := pre ++ r2 in
+     let e := err_item (l_pos l + Z.of_nat (length txt) + 1) e_close_brace in
+     lex_items ul ud (k + S fuel) false f = Ok (rev (l_out l) ++ [e]) /\
+     line_at f (t_pos e) = 1 + count_nl (take (Z.to_nat (l_pos l)) f ++ txt))
+  /\
+  (forall pre r1 r2 k l ws c rest fuel,
+     steps ul ud (pre ++ r1) 0 k LText lex_init = Ok (LInsideTag, l) ->
+     (forall j stj lj, (j <= k)%nat -> steps ul ud (pre ++ r1) 0 j LText lex_init = Ok (stj, lj) ->
+        before_margin pre lj) ->
+     drop (Z.to_nat (l_pos l)) (pre ++ r2) = ws ++ c :: rest -> Forall space_byte ws -> c < 128 ->
+     reaches_default (Z.of_N c) = true -> c <> 10 ->
+     let f := pre ++ r2 in
+     let e := err_item (l_pos l + Z.of_nat (length ws) + 1) e_bad_char in
+     lex_items ul ud (k + (length ws + S fuel)) false f = Ok (rev (l_out l) ++ [e]) /\
+     line_at f (t_pos e) = 1 + count_nl (take (Z.to_nat (l_pos l)) f ++ ws))
+  /\
+  (forall s k l txt rest fuel,
+     steps ul ud s 0 k LText lex_init = Ok (LText, l) -> (0 <= l_pos l)%Z ->
+     drop (Z.to_nat (l_pos l)) s = txt ++ 125 :: rest -> Forall plain txt ->
+     let e := err_item (l_pos l + Z.of_nat (length txt) + 1) e_close_brace in
+     lex_items ul ud (k + S fuel) false s = Ok (rev (l_out l) ++ [e]) /\
+     line_at s (t_pos e) = 1 + count_nl (take (Z.to_nat (l_pos l)) s ++ txt))
+  /\
+  (forall s k l ws c rest fuel,
+     steps ul ud s 0 k LText lex_init = Ok (LInsideTag, l) -> (0 <= l_pos l)%Z ->
+     drop (Z.to_nat (l_pos l)) s = ws ++ c :: rest -> Forall space_byte ws -> c < 128 ->
+     reaches_default (Z.of_N c) = true -> c <> 10 ->
+     let e := err_item (l_pos l + Z.of_nat (length ws) + 1) e_bad_char in
+     lex_items ul ud (k + (length ws + S fuel)) false s = Ok (rev (l_out l) ++ [e]) /\
+     line_at s (t_pos e) = 1 + count_nl (take (Z.to_nat (l_pos l)) s ++ ws)).
+Proof.
+  intros ul ud Hl Hd. split; [|split; [|split]].
+  - intros. eapply (stray_brace_after_valid_prefix ul ud Hl Hd pre r1 r2); eassumption.
+  - intros. eapply (illegal_char_after_valid_prefix ul ud Hl Hd pre r1 r2); eassumption.
+  - intros. eapply stray_brace_reached; eassumption.
+  - intros. eapply illegal_char_reached; eassumption.
+Qed.
+Print Assumptions C19_fault_line_partial.
+
+(* the earlier, weaker form (kept: it holds of the parser model for ANY expression parser, scanner of
+   quoted expressions and strconv.Unquote handed to it) *)
+Theorem C19_parse_error_inside :
   forall inlen lexq unq pexpr efuel fuel ts t c st,
     po_result (parse_file inlen lexq unq pexpr efuel fuel ts) = PErr t c st ->
     tok_inside inlen t c /\ forall src, 1 <= line_at src (t_pos t) <= lines src.
 Proof.
   intros. split; [eapply parse_file_error_inside; eauto | intros; apply line_at_inside].
 Qed.
-Print Assumptions C19_parse_error_position_partial.
+Print Assumptions C19_parse_error_inside.
+
+(* totality on bytes (Proofs/ParseCompose.v, wt-parser): for EVERY byte string the scan returns items and the model of
+   parse.SoyFile on them returns a tree or a positioned error -- never the slice panic of lineNumber, never out of fuel *)
+From Soy Require Import Proofs.ParserProofs Proofs.LexParseBridge Proofs.ParseCompose.
+Open Scope N_scope.
+Theorem C19_parse_never_crashes :
+  forall ul ud, ul (-1)%Z = false -> ud (-1)%Z = false ->
+  forall lexq unq, lexq_wf lexq -> forall s,
+    exists ts, lex_items ul ud (lex_budget s) false s = Ok ts /\
+      (floats_ok ts ->
+       match po_result (soy_file (N.of_nat (length s)) lexq unq ts) with
+       | POk _ _ => True
+       | PErr t c _ => (is_prefix e_quoted c = false -> t_pos t <= N.of_nat (length s)) /\ 1 <= line_at s (t_pos t) <= lines s
+       | PCrash _ | PFuel => False
+       end).
+Proof. exact parse_error_position_composed. Qed.
+Print Assumptions C19_parse_never_crashes.
 
 Theorem C19_line_at_monotone : forall src p q, p <= q -> line_at src p <= line_at src q.
 Proof. exact line_at_monotone. Qed.
